@@ -320,6 +320,9 @@ func held(wl simapi.Obj, kind string) bool {
 		return simapi.Bool(wl, "spec.paused")
 	case "cloneset":
 		return simapi.Bool(wl, "spec.updateStrategy.paused") || fmt.Sprint(simapi.Path(wl, "spec.updateStrategy.partition")) == "100%"
+	case "statefulset", "advstatefulset":
+		p, ok := simapi.Int(wl, "spec.updateStrategy.rollingUpdate.partition")
+		return ok && p >= simapi.IntD(wl, "spec.replicas", 1)
 	}
 	return false
 }
@@ -327,6 +330,9 @@ func held(wl simapi.Obj, kind string) bool {
 func holdStr(wl simapi.Obj, kind string) string {
 	if kind == "deployment" {
 		return fmt.Sprintf("paused=%v", simapi.Bool(wl, "spec.paused"))
+	}
+	if kind == "statefulset" || kind == "advstatefulset" {
+		return fmt.Sprintf("partition=%v", simapi.Path(wl, "spec.updateStrategy.rollingUpdate.partition"))
 	}
 	return fmt.Sprintf("partition=%v paused=%v", simapi.Path(wl, "spec.updateStrategy.partition"), simapi.Bool(wl, "spec.updateStrategy.paused"))
 }
